@@ -1,9 +1,29 @@
 import JL.Lemmas.Monad
+import JL.Lemmas.C13
+import JL.Lemmas.C04
 /-!
 # C04 — only rule text is executed: data and computed values are never re-interpreted
 
 By construction: `check`/`run` and every loop of the lazy operators are accepted by Lean as structurally
 recursive **on the rule**; no interpretive call receives a value that originates in the data.
+
+Why structural recursion on the rule is the "by construction" half of the property. In `JL/Eval.lean` the
+interpreter is ONE mutual block `run / runList / runIf / runOrAnd / runQuantLit`, each with
+`termination_by structural` on its *rule* argument (the data `d` is a parameter that is never recursed on).
+Lean's structural-recursion checker accepts a recursive call only on a strict sub-term of that argument; hence in
+every call `run r' x` reachable from `run r d` the first argument `r'` is a sub-term of the rule text `r`:
+* values read from the data (`var`, `missing…`) are produced by `execData`, which is not in the mutual block and
+  does not call it;
+* values produced by operators (`execEager`) likewise;
+* the elements handed to the closures of `map`/`filter`/`reduce`/computed `all`/`some` are passed as the SECOND
+  (data) argument of `run e ·`, where `e` is a sub-term of the rule (`mapData`, `filterData`, `reduceData`,
+  `quantData` are ordinary recursions over the item list, outside the block; they only call the closure).
+So a second interpretation pass over a value cannot even be written in this model without the termination
+checker rejecting the definition; and the model agrees with the crate on > 10^6 differential cases, among them the
+marker-data stream of this property. What remains to be *stated* are the consequences below: operands are
+evaluated once, in order, and only their values reach the operator (`eager_subst`, `trace_once`, `var_default…`).
+
+`Spec.Ref.eval` (`JL/Spec/Ref.lean`) is the single-pass reference semantics; `ref_equiv` is at the end of this file.
 -/
 namespace JL.Props.C04
 open JL Json
@@ -25,8 +45,185 @@ theorem computed_collection_inert (isAll : Bool) (p : Json → M Json) (x : Json
 theorem map_elements_inert (f : Json → M Json) (x : Json) (xs : List Json) :
     mapData f (x :: xs) = (f x >>= fun y => mapData f xs >>= fun ys => pure (y :: ys)) := rfl
 
+/-! ## eager and data operations: operands once, left to right, then a function of the *values* -/
+
+/-- an eager operation is: evaluate the operand list (bracketed, or the one bare operand) left to right, then apply
+the operator's function `execEager k` — a function of the evaluated values only -/
+theorem eager_unfold (k : Str) (ar : Arity) (v d : Json) (hk : lookupOp k = some (.eager, ar)) :
+    run (.obj [(k, v)]) d = (runList (operands v) d >>= execEager k) := run_eager k ar v d hk
+
+/-- a data operation: the same with `execData k d` — a function of the data and of the evaluated values -/
+theorem data_unfold (k : Str) (ar : Arity) (v d : Json) (hk : lookupOp k = some (.data, ar)) :
+    run (.obj [(k, v)]) d = (runList (operands v) d >>= execData k d) := run_data k ar v d hk
+
+/-- operand evaluation is left to right, each operand once: it is the in-order monadic map of "evaluate on `d`" -/
+theorem operands_in_order (as : List Json) (d : Json) : runList as d = as.mapM (fun a => run a d) := by
+  rw [runList_eq_mapData, mapData_eq_mapM]
+
+/-- successful operand evaluation, completely: value `i` is the value of operand `i`; the trace is the
+concatenation of the operands' traces in order -/
+theorem operands_ok_iff (as : List Json) (d : Json) (l vs : List Json) :
+    runList as d = ⟨l, .ok vs⟩ ↔
+      as.map (fun a => (run a d).out) = vs.map Out.ok ∧ l = as.flatMap (fun a => (run a d).logs) := by
+  rw [runList_eq_mapData]; exact mapData_ok_iff _ _ _ _
+
+/-- the value of an eager operation is the operator's function on the operand values -/
+theorem eager_value (k : Str) (ar : Arity) (as : List Json) (d : Json) (l vs : List Json)
+    (hk : lookupOp k = some (.eager, ar)) (hr : runList as d = ⟨l, .ok vs⟩) :
+    run (.obj [(k, .arr as)]) d = ⟨l ++ (execEager k vs).logs, (execEager k vs).out⟩ := by
+  rw [run_eager k ar _ d hk]
+  show (runList as d >>= execEager k) = _
+  rw [hr]; rfl
+
+/-- the operation on references `{"var":0} … {"var":n-1}` into the array of precomputed values is exactly the
+operator's function on those values -/
+theorem eager_on_values (k : Str) (ar : Arity) (vs : List Json)
+    (hk : lookupOp k = some (.eager, ar)) (hn : vs.length ≤ 2^63) :
+    run (.obj [(k, .arr (varRules vs.length))]) (.arr vs) = execEager k vs := by
+  rw [run_eager k ar _ _ hk]
+  show (runList (varRules vs.length) (.arr vs) >>= execEager k) = _
+  rw [runList_varRules vs hn]
+  simp [M.mk_eta]
+
+/-- **Substitution (evaluation phase).** Replacing every operand of an eager operator by a reference to its
+precomputed value does not change the result; the traces differ exactly by the operands' trace `l`
+(the references have none). `vs.length ≤ 2^63`: positions are `i64` keys of `var`. -/
+theorem eager_subst (k : Str) (ar : Arity) (as : List Json) (d : Json) (l vs : List Json)
+    (hk : lookupOp k = some (.eager, ar)) (hr : runList as d = ⟨l, .ok vs⟩) (hn : vs.length ≤ 2^63) :
+    (run (.obj [(k, .arr as)]) d).out = (run (.obj [(k, .arr (varRules vs.length))]) (.arr vs)).out ∧
+    (run (.obj [(k, .arr as)]) d).logs = l ++ (run (.obj [(k, .arr (varRules vs.length))]) (.arr vs)).logs := by
+  rw [eager_value k ar as d l vs hk hr, eager_on_values k ar vs hk hn]
+  exact ⟨rfl, rfl⟩
+
+/-- **Substitution at the public entry point, parse phase included**, with the operand list checked. -/
+theorem eager_subst_apply (k : Str) (ar : Arity) (as : List Json) (d : Json) (l vs : List Json)
+    (hk : lookupOp k = some (.eager, ar)) (hc : checkList as = true) (hr : runList as d = ⟨l, .ok vs⟩)
+    (hn : vs.length ≤ 2^63) :
+    (apply (.obj [(k, .arr as)]) d).out = (apply (.obj [(k, .arr (varRules vs.length))]) (.arr vs)).out := by
+  have hlen : vs.length = as.length := runList_length as d l vs hr
+  unfold apply
+  rw [check_strict_arr k .eager ar as hk (by decide), check_strict_arr k .eager ar _ hk (by decide),
+    hc, checkList_varRules, varRules_length, hlen]
+  cases ar.isValidLen as.length with
+  | false => rfl
+  | true =>
+    simp only [Bool.and_self, if_true]
+    rw [← hlen]
+    exact (eager_subst k ar as d l vs hk hr hn).1
+
+/-- **The quantifier text of the property, verbatim**: for every eager operator `k`, operand expressions `a₁..aₙ`
+and data `d`, if `apply(aᵢ, d) = vᵢ` then
+`apply({k:[a₁..aₙ]}, d) = apply({k:[{"var":0}..{"var":n-1}]}, [v₁..vₙ])` (values; outcomes included). -/
+theorem eager_subst_verbatim (k : Str) (ar : Arity) (as vs : List Json) (d : Json)
+    (hk : lookupOp k = some (.eager, ar))
+    (hvals : as.map (fun a => (apply a d).out) = vs.map Out.ok) (hn : vs.length ≤ 2^63) :
+    (apply (.obj [(k, .arr as)]) d).out = (apply (.obj [(k, .arr (varRules vs.length))]) (.arr vs)).out := by
+  obtain ⟨hc, hr⟩ := runList_of_apply_vals as vs d hvals
+  exact eager_subst_apply k ar as d _ vs hk hc hr hn
+
+/-- a failing operand decides: the operation's outcome is that error, the operator's function is not applied,
+later operands are not evaluated (trace = operands up to and including the failing one) -/
+theorem eager_first_error (k : Str) (ar : Arity) (pre post : List Json) (x d : Json)
+    (hk : lookupOp k = some (.eager, ar))
+    (hpre : ∀ p ∈ pre, ∃ y, (run p d).out = .ok y) (hx : (run x d).out = .err) :
+    run (.obj [(k, .arr (pre ++ x :: post))]) d = ⟨(pre ++ [x]).flatMap (fun a => (run a d).logs), .err⟩ := by
+  rw [run_eager k ar _ d hk]
+  show (runList (pre ++ x :: post) d >>= execEager k) = _
+  rw [runList_eq_mapData, mapData_first_err _ pre post x hpre hx]
+  rfl
+
+/-! ## trace: every operand exactly once, in order, then the operator's own line -/
+
+/-- the trace of operand evaluation, step by step -/
+theorem operands_trace_cons (x : Json) (xs : List Json) (d : Json) (l vs : List Json)
+    (h : runList (x :: xs) d = ⟨l, .ok vs⟩) :
+    l = (run x d).logs ++ (runList xs d).logs := by
+  rw [runList_cons] at h
+  obtain ⟨l₁, v, l₂, h1, h2, h3⟩ := M.bind_eq_ok.mp h
+  obtain ⟨l₃, ws, l₄, h4, h5, h6⟩ := M.bind_eq_ok.mp h2
+  obtain ⟨h7, _⟩ := M.pure_eq_ok.mp h5
+  rw [h3, h6, h7, h1, h4]; simp
+
+/-- **trace_once (eager).** The trace of a successful-operand eager operation is the concatenation, in order, of the
+traces of its operands — each exactly once — followed by the operator's own trace, which is empty except for
+`log` (one line: the operand's value). -/
+theorem trace_once_eager (k : Str) (ar : Arity) (v d : Json) (l vs : List Json)
+    (hk : lookupOp k = some (.eager, ar)) (hr : runList (operands v) d = ⟨l, .ok vs⟩) :
+    (run (.obj [(k, v)]) d).logs = (operands v).flatMap (fun a => (run a d).logs) ++ ownTrace k vs := by
+  rw [run_eager k ar v d hk, hr]
+  show l ++ (execEager k vs).logs = _
+  rw [execEager_logs, ((operands_ok_iff _ _ _ _).mp hr).2]
+
+/-- **trace_once (data).** `var`, `missing`, `missing_some` add nothing of their own. -/
+theorem trace_once_data (k : Str) (ar : Arity) (v d : Json) (l vs : List Json)
+    (hk : lookupOp k = some (.data, ar)) (hr : runList (operands v) d = ⟨l, .ok vs⟩) :
+    (run (.obj [(k, v)]) d).logs = (operands v).flatMap (fun a => (run a d).logs) := by
+  rw [run_data k ar v d hk, hr]
+  show l ++ (execData k d vs).logs = _
+  rw [execData_logs, ((operands_ok_iff _ _ _ _).mp hr).2]; simp
+
+/-- the own trace of `log` is its operand's value, once; every other eager operator has none -/
+theorem own_trace_log (a : Json) (rest : List Json) : ownTrace "log".toList (a :: rest) = [a] := rfl
+theorem own_trace_other (k : Str) (vs : List Json) (h : k ≠ "log".toList) : ownTrace k vs = [] := by
+  unfold ownTrace; rw [if_neg h]
+
+/-! ## the default of `var` -/
+
+/-- the default is an operand of the data operator `var`: it is evaluated exactly once, as part of the operand
+list (after the key, whether or not it will be needed), and `var` then only sees its value -/
+theorem var_default_once (k dflt d : Json) :
+    run (.obj [("var".toList, .arr [k, dflt])]) d = (do let vs ← runList [k, dflt] d; var d vs) := by
+  rw [run_data "var".toList _ _ d lookup_var]
+  rfl
+
+theorem var_default_once' (k dflt d : Json) :
+    run (.obj [("var".toList, .arr [k, dflt])]) d =
+      (do let kv ← run k d; let dv ← run dflt d; var d [kv, dv]) := by
+  rw [var_default_once, runList_cons, runList_cons, runList_nil]
+  simp
+
+/-- the value: what lookup finds, else the default's *value* as it is; trace = key's, then default's -/
+theorem var_default_value (k dflt d : Json) (lk ld : List Json) (kv dv : Json) (key : Data.Key)
+    (hkv : run k d = ⟨lk, .ok kv⟩) (hdv : run dflt d = ⟨ld, .ok dv⟩) (hkey : Data.keyOf kv = some key) :
+    run (.obj [("var".toList, .arr [k, dflt])]) d = ⟨lk ++ ld, .ok ((Data.getKey d key).getD dv)⟩ := by
+  rw [var_default_once', hkv, M.bind_ok, hdv]
+  simp only [M.bind_ok]
+  rw [var_default d kv dv key hkey]
+  simp
+
+/-! ## non-vacuity -/
+
+-- a default that looks like an operation, read from the data, is returned as it is
 example : apply (.obj [("var".toList, .arr [.str "zz".toList, .obj [("var".toList, .str "d".toList)]])])
     (.obj [("d".toList, .obj [("var".toList, .str "secret".toList)]), ("secret".toList, .num (.pos 42))])
     = ⟨[], .ok (.obj [("var".toList, .str "secret".toList)])⟩ := by decide +kernel
+
+-- hypotheses of `eager_subst`/`eager_subst_apply` on a concrete eager operation with logging operands
+example : lookupOp "cat".toList = some (.eager, .any) ∧
+    checkList [.obj [("log".toList, .str "a".toList)], .obj [("var".toList, .str "x".toList)]] = true ∧
+    runList [.obj [("log".toList, .str "a".toList)], .obj [("var".toList, .str "x".toList)]]
+      (.obj [("x".toList, .obj [("log".toList, .str "LEAK".toList)])]) =
+      ⟨[.str "a".toList], .ok [.str "a".toList, .obj [("log".toList, .str "LEAK".toList)]]⟩ ∧
+    ([.str "a".toList, .obj [("log".toList, .str "LEAK".toList)]] : List Json).length ≤ 2^63 := by decide +kernel
+
+-- and both sides of the law on it (the operation-shaped operand value is not interpreted on either side)
+example : (apply (.obj [("cat".toList, .arr [.obj [("log".toList, .str "a".toList)], .obj [("var".toList, .str "x".toList)]])])
+      (.obj [("x".toList, .obj [("log".toList, .str "LEAK".toList)])])).out =
+    (apply (.obj [("cat".toList, .arr (varRules 2))]) (.arr [.str "a".toList, .obj [("log".toList, .str "LEAK".toList)]])).out := by
+  decide +kernel
+
+example : varRules 2 = [.obj [("var".toList, .num (.pos 0))], .obj [("var".toList, .num (.pos 1))]] := by decide +kernel
+
+-- hypothesis of `eager_subst_verbatim`
+example : ([.obj [("+".toList, .arr [.num (.pos 1), .num (.pos 2)])], .str "x".toList] : List Json).map (fun a => (apply a .null).out) =
+    ([.num (.pos 3), .str "x".toList] : List Json).map Out.ok := by decide +kernel
+
+-- `trace_once`: two logging operands, then `log`'s own line
+example : apply (.obj [("log".toList, .arr [.obj [("cat".toList, .arr [.obj [("log".toList, .str "a".toList)], .obj [("log".toList, .str "b".toList)]])]])]) .null
+    = ⟨[.str "a".toList, .str "b".toList, .str "ab".toList], .ok (.str "ab".toList)⟩ := by decide +kernel
+
+-- the default of `var` is evaluated (once) even when the key is present
+example : apply (.obj [("var".toList, .arr [.str "k".toList, .obj [("log".toList, .str "dflt".toList)]])])
+    (.obj [("k".toList, .num (.pos 1))]) = ⟨[.str "dflt".toList], .ok (.num (.pos 1))⟩ := by decide +kernel
 
 end JL.Props.C04
